@@ -41,6 +41,9 @@ def config(prop, tier):
         cfg["race_rate"] = 0.3
         cfg["read_error_rate"] = 0.2
         cfg["runs"] = 300 if tier == "quick" else 8000
+    only = os.environ.get("VERIF_TREE")  # exploration aid: restrict the workload to one tree kind
+    if only:
+        cfg["tree_weights"] = {k: (1 if k == only else 0) for k in cfg["tree_weights"]}
     return cfg
 
 
